@@ -17,7 +17,9 @@ func init() {
 		Decides:    "agreement between the two ends of reuseConnection, on a decision table extracted from the syntax tree over the finite atoms (peer cache state, peer direction, own cached flag, own cached direction, own direction, re-check): every valuation reaches exactly one leaf (STORE / REUSE / REJECT); for the two ends of one new connection (dialer OUT, acceptor IN) and every pair of pre-existing cache states, without an intervening change one side stores iff the other stores; a REUSE happens only against a peer announcing a cached connection of the opposite direction or on the re-check path; no leaf closes the cached connection and in a REUSE/REUSE pair exactly one side closes the fresh one; every REJECT of a recognised state is an 'invalid state' error; the cache is written only under the keyed write lock and announced under the read lock.",
 		NotDecided: "interleavings of more than one negotiation with the reaper.",
 		Run:        runC41})
+	mutExtra["write-flag-sampled-before-wait"] = [2]string{"		wasEmpty := p.empty()\n\n", "\n"}
 	addSelfTests("C39",
+		mutation{"write-flag-sampled-before-wait", "util/bufconn/bufconn.go", "	for len(b) > 0 {\n		// Block until p is not full.", "	wasEmpty := p.empty()\n	for len(b) > 0 {\n		// Block until p is not full.", "wakeup"},
 		mutation{"close-no-writer-wakeup", "util/bufconn/bufconn.go", "	p.closed = true\n	// Signal all blocked readers and writers to return an error.\n	p.rwait.Broadcast()\n	p.wwait.Broadcast()", "	p.closed = true\n	// Signal all blocked readers and writers to return an error.\n	p.rwait.Broadcast()", "wakeup"},
 		mutation{"timeout-no-wakeup", "util/bufconn/bufconn.go", "			p.rtimedout = true\n			p.rwait.Broadcast()", "			p.rtimedout = true", "wakeup"},
 		mutation{"wait-not-retested", "util/bufconn/bufconn.go", "		if p.rtimedout {\n			return 0, errTimeout\n		}\n\n		p.rwait.Wait()\n	}", "		p.rwait.Wait()\n		if p.rtimedout {\n			return 0, errTimeout\n		}\n		break\n	}", "wait-loop"},
@@ -201,6 +203,7 @@ func runC39(c *Ctx) {
 			fs := fn.FactsAt(notify)
 			uncond := true
 			flagOK := false
+			staleNote := ""
 			for _, fa := range fs.Facts {
 				if fa.Kind != FCmp || fa.Sem {
 					continue
@@ -211,8 +214,30 @@ func runC39(c *Ctx) {
 						defs := fn.defsOf(v)
 						if len(defs) == 1 {
 							if dc, ok := defs[0].rhs.(*ast.CallExpr); ok && fn.IsCall(dc, spec.flagCall) && defs[0].pos < mut.Pos() {
-								flagOK = true
+								// the flag is a sample of the state the mutation starts from: between
+								// taking it and moving the index the monitor is never left (no
+								// Cond.Wait, which releases the mutex and lets the peer change the state)
+								stale := false
+								between, _ := fn.Reach(dc, func(n ast.Node) bool { return containsNode(n, mut) }, nil)
+								reachesMut := false
+								for _, bn := range between {
+									if containsNode(bn, mut) {
+										reachesMut = true
+										continue
+									}
+									ast.Inspect(bn, func(x ast.Node) bool {
+										if wc, ok := x.(*ast.CallExpr); ok && fn.IsCall(wc, "sync.Cond.Wait") {
+											stale = true
+										}
+										return true
+									})
+								}
 								uncond = false
+								if reachesMut && !stale {
+									flagOK = true
+								} else {
+									staleNote = "; the flag is taken before a Cond.Wait, so it describes the buffer before the writer/reader slept"
+								}
 							}
 						}
 					}
@@ -220,7 +245,7 @@ func runC39(c *Ctx) {
 			}
 			// other conditions guarding the notify besides the loop tests are not expected: the notify sits right after the mutation
 			ok = after && (flagOK || uncond && notifyAlways(fn, mut, spec.cond))
-			det = fmt.Sprintf("after mutation=%v, guarded by a pre-mutation %s flag=%v", after, spec.flagCall, flagOK)
+			det = fmt.Sprintf("after mutation=%v, guarded by a pre-mutation %s flag=%v%s", after, spec.flagCall, flagOK, staleNote)
 		}
 		c.Ob("wakeup", "pipe."+spec.fn+"#"+spec.cond+"-notified", mut.Pos(), ok, spec.what+" (the was-full/was-empty flag must be taken before the indices move): "+det)
 	}
